@@ -1,73 +1,153 @@
 """C08 — Load and Store move exactly the component's bytes with Go's extension rule.
 
-Proof-partial: the move-deduction table (Gen.mov, regenerated from build/zmov.go, first match) is judged
-COMPLETELY over the finite reachable input space of Context.Load/Store by kernel evaluation against a
-hand-written model of what each selected instruction does (`movSem`); `movSem` itself is a measured
-oracle: on every run the real avo generates assembly functions around the real Load/Store, a throw-away
-Go program runs them on the CPU, and both the model of the instruction (cpu-load / cpu-store) and the
-property (accept-cpu, against Go's own conversions) are compared with what the CPU did."""
+Proof-partial: what the real Context.Load / Context.Store do is tabulated on every run over the complete finite
+class-level input space by RUNNING them (Gen.movTab) and judged COMPLETELY by kernel evaluation against a declarative
+class table (where a move must exist) and a hand-written model of what each selected instruction does (`movSem`);
+`movSem` itself is a measured oracle: on every run the real avo generates assembly functions around the real
+Load/Store, a throw-away Go program runs them on the CPU, and both the model of the instruction (cpu-load /
+cpu-store) and the property (accept-cpu, against Go's own conversions; accept-vet, go vet's asmdecl width
+diagnostics) are compared with what the CPU / vet did."""
+import json
 import os
+import re
 
-from ..modules import MOV, FORMSMETA
+from ..core import LEAN
+from ..modules import MOV, FORMSMETA, REGS
 
 GO_FILES = ["c06.go", "c06_optab_ast.go", "c06_ctors_ast.go", "gen_forms.go", "zz_c06_wrappers.go",
             "gen_mov.go", "c08.go", "c08cpu.go"]
-PROPS = ["AvoVerif.Props.C08"]
-FINDING = "AvoVerif.Props.C08Finding"
+PROPS = ["AvoVerif.Props.C08", "AvoVerif.Props.C08Regs"]
+FINDINGS = [("F7", "AvoVerif.Props.C08Finding", "C08Finding"), ("F18", "AvoVerif.Props.C08FindingF18", "C08FindingF18")]
+
+# lower bounds on what a run must have judged (a generator or a refactored entry point that silently drops cases
+# must not look like success).  Counts are deterministic: 18 spellings x 28 registers x 3 shapes x 2 entry points x 2
+# directions = 6048 basic cases, 18 sub-components x 28 x 3 x 2 = 3024, 6 x 9 x 2 = 108 non-primitive.
+FLOORS = {"inputs": 9000, "instruction": 1500, "error": 2500, "nonprimitive-error": 100}
+SHAPES = ["param/ctx", "param/pkg", "deref/ctx", "deref/pkg", "cderef/ctx", "cderef/pkg"]
 
 
 def run(ctx):
-    ctx.level = "proof"
-    ctx.coverage["proof_partial"] = ("the deduction table is decided completely in Lean; what the selected instructions do "
-                                     "(movSem) is hand-modelled and validated on the host CPU on every run")
+    ctx.level = "proof"   # the evidence schema knows "proof" only; the partiality is stated in coverage["proof_partial"]
+    ctx.coverage["proof_partial"] = (
+        "proof-partial (DESIGN §4): the outcome of Load/Store at every class-level input is decided completely in Lean "
+        "(mov_ok_partial, outside the findings F7 and F18); what the selected instructions do (movSem) is hand-modelled "
+        "and validated on the host CPU on every run (a measured oracle, not a theorem); that one register / one address "
+        "per class represents the class is a theorem only while build/zmov.go has the shape the go/ast extractor "
+        "recognises (ast_agrees + loadStore_class_invariant), otherwise it is measured on 28 registers x 3 address shapes")
     if not ctx.build_harness(GO_FILES):
         return
-    ok = ctx.regen([FORMSMETA, MOV])
+    ok = ctx.regen([FORMSMETA, REGS, MOV])
+    try:
+        gen = open(os.path.join(LEAN, "AvoVerif", "Gen", "Mov.lean")).read()
+        if "def movAstOK : Bool := false" in gen:
+            m = re.search(r"/- go/ast extraction of build/zmov.go not possible: (.*?) -/", gen, re.S)
+            ctx.notes.append("build/zmov.go no longer has the shape the go/ast extractor recognises (" + (m.group(1) if m else "?") +
+                             "): the source rows are not cross-checked in this run; the property theorems are about the "
+                             "behaviour table and are unaffected")
+    except OSError:
+        pass
     ctx.forbidden_scan()
     if not ctx.build_driver():
         return
     if ok and ctx.lake_each(PROPS):
         ctx.audit("C08")
-        # finding F7 proved at the witness: a separate module — when the table is repaired it stops holding and the
+        # findings proved at their witnesses: separate modules — when avo is repaired they stop holding and the
         # finding is stale (a note), which must not break the property's own theorems
-        okf, _ = ctx.lake([FINDING])
-        if okf:
-            ctx.audit("C08Finding")
-        else:
-            ctx.notes.append("Props/C08Finding.lean (negation of the property at the F7 witness) no longer holds: "
-                             "the known_findings.json entry C08/F7 is stale")
-            ctx.log("finding F7: witness theorem no longer holds (stale finding?)")
+        for fid, mod, audit in FINDINGS:
+            okf, _ = ctx.lake([mod])
+            if okf:
+                ctx.audit(audit)
+            else:
+                ctx.notes.append(f"{mod} (negation of the property at the {fid} witness) no longer holds: "
+                                 f"the known_findings.json entry C08/{fid} is stale")
+                ctx.log(f"finding {fid}: witness theorem no longer holds (stale finding?)")
     if ctx.tier == "thorough":
         ctx.leanchecker(PROPS)
 
-    cpu = "40" if ctx.tier == "quick" else "-1"
+    # regression corpus of the acceptors (known-bad outputs must stay rejected)
+    ctx.run_corpus("c08")
+
+    cpu = "44" if ctx.tier == "quick" else "-1"
     nontrivial = lambda req, resp: not req.startswith("accept-nonprim") and resp != "error"
     ctx.differential("c08", 0, extra=["-cpu", cpu, "-work", os.path.join(ctx.dir, "cpu")], nontrivial=nontrivial,
                      max_report=200, timeout=3000)
 
+    # sample floors
+    try:
+        st = json.load(open(os.path.join(ctx.dir, "c08.stats.json")))
+        hist = st.get("histogram", {})
+        got = {"inputs": st.get("inputs", 0)}
+        got.update({k: hist.get(k, 0) for k in FLOORS if k != "inputs"})
+        low = [f"{k}: {got[k]} < {v}" for k, v in FLOORS.items() if got[k] < v]
+        low += [f"shape {s}: {hist.get('shape:' + s, 0)} < 1500" for s in SHAPES if hist.get("shape:" + s, 0) < 1500]
+        cpu_st = st.get("cpu") or {}
+        if "failed" not in cpu_st:
+            rows = cpu_st.get("rows_measured", 0)
+            need = 40 if ctx.tier == "quick" else 90
+            if rows < need:
+                low.append(f"cpu rows measured: {rows} < {need}")
+            if cpu_st.get("load_observations", 0) + cpu_st.get("store_observations", 0) < 12 * rows:
+                low.append("cpu observations below 12 per measured row")
+        if low:
+            ctx.obligation_failures.append(("c08: sample floors", "; ".join(low)))
+    except (OSError, ValueError) as e:
+        if not ctx.replay:
+            ctx.obligation_failures.append(("c08: sample floors", f"statistics unreadable: {e}"))
+
     ctx.coverage["exhaustive"] = True
     ctx.coverage["rule"] = (
-        "every reachable input of Context.Load / Context.Store: 18 spellings of basic types (all go/types basic kinds a "
-        "component can resolve to, pointers, byte/rune) x 28 registers (a virtual register of each class GP 8L/8H/16/32/64, "
-        "XMM/YMM/ZMM, K plus physical ones incl. R8-R15 views, high-byte, X17/Y31/Z30, K0) x {parameter/result address, "
-        "dereferenced pointer} x {Load, Store} on a real signature, plus non-primitive components (string, complex, slice, "
-        "array, struct): `mov` = exact comparison of the appended instruction's opcode / the error with the model's first "
-        "match over Gen.mov; `accept-movsel` = the property on the implementation's choice through movSem. CPU: for one "
-        "representative per (direction, type, register class) that selects an instruction (quick: 40 incl. one per opcode "
-        "and every 4-byte/XMM row; thorough: all ~100) real avo-generated functions run on 12 boundary patterns x 2 register "
-        "poisons; loads: register image, dependence of the register on each memory byte (access width), Go's own "
-        "conversion computed by the Go compiler; stores: result array pre-filled with 0x5a, bytes after the component must "
-        "survive. non-trivial = requests whose outcome is an instruction.")
+        "every reachable input of Load / Store: 18 spellings of basic types (all go/types basic kinds a component can "
+        "resolve to, pointers, byte/rune, unsafe.Pointer) x 28 registers (a virtual register of each class GP 8L/8H/16/32/64, "
+        "XMM/YMM/ZMM, K plus physical ones incl. R8-R15 views, high-byte, X17/Y31/Z30, K0) x 3 address shapes {parameter / "
+        "result, gotypes Dereference on R14, Context.Dereference (which itself loads the pointer: judged as a Load of "
+        "uintptr into the register it chose, the pointee must be addressed through exactly that register)} x 2 entry points "
+        "{Context.Load/Store, package-level build.Load/Store/Param/Return/Dereference on a swapped-in context} x {Load, "
+        "Store} on a real signature; 18 sub-components (real/imag of complex incl. named, string/slice headers incl. named, "
+        "Index(k>0) of arrays incl. of a defined scalar type, struct Field) x the same registers and shapes; non-primitive "
+        "components (string, complex, slice, array, struct) must be errors. The expected basic type comes from the SPELLED "
+        "type, sizes from go/types.SizesFor(gc, amd64) — never from avo's Resolve() / gotypes.Sizes. Lines: `mov` = exact "
+        "comparison of the outcome (opcode / error) with the behaviour table made at the start of the run for the input's "
+        "class (class invariance, determinism); `accept-movsel` = the property on the outcome (acceptSel: error only where "
+        "the class table has no move; selected opcode through movSem), plus explicit failures: resolved to another type, "
+        "instruction operands other than (address, register), Load returning another register than its destination. CPU: "
+        "one representative per (direction, type, register class) that selects an instruction (quick: 44 incl. one per "
+        "opcode, one per register class incl. high-byte, every 4-byte/XMM row; thorough: all ~100): real avo-generated "
+        "functions, the component is element 1 of a 32-byte array with recognisable bytes on BOTH sides, 12 boundary "
+        "patterns x 2 register poisons; loads: register image, set of memory bytes the register depends on (first, last, "
+        "count), Go's own conversion computed by the Go compiler; stores: array pre-filled with 0x5a, every byte outside "
+        "the component must survive; the opcode is read back from the measured function; every row must deliver all its "
+        "observations. go vet -asmdecl runs on the measured functions: every width diagnostic is a failing accept-vet line "
+        "unless it is vet's known wrong guess for KMOVD/VMOVD/MOVD (last letter D = 8 bytes) contradicted by the CPU. "
+        "non-trivial = requests whose outcome is an instruction.")
     ctx.assumptions += [
+        "where a move must exist (mustMove, Model/Mov.lean): the type's register file fits (floats: vector registers only — "
+        "float<->GP/mask is accepted as an error although MOVL/MOVQ could copy the bits: Go has no bit-exact conversion of a "
+        "float to an integer register; integers, booleans, pointers: GP, mask, vector) AND the x86 class table has a "
+        "two-operand move of exactly the component's width: GP n bytes: loads of 1/2/4/8 <= n, stores of exactly n; mask: "
+        "1/2/4/8 (KMOVB/W/D/Q); XMM: 4/8 (MOVD/MOVQ/MOVSS/MOVSD); YMM/ZMM: none (scalar moves take XMM operands only), so "
+        "Load/Store with a YMM/ZMM register is always an acceptable error, as are 1- and 2-byte integers with XMM",
+        "for vector and mask destinations the property pins the low bytes and the access width only (upper bytes are not judged)",
+        "component addresses are C07's property: C08 checks that the instruction uses exactly the address Resolve() returned, "
+        "not that this address is right",
         "the predicates used by the table depend on register kind and size only (IsK, IsM*, IsR*, IsXMM/IsYMM/IsZMM), so one "
-        "register per class represents the class in the Lean theorem; the harness additionally runs physical registers",
-        "the host CPU supports AVX-512 (ZMM and mask rows are executed); what it does is taken as the architecture's behaviour",
-        "memory operands: operand.IsM8..IsM512 do not look at sizes (any GP/pseudo-based Mem matches), as in operand/checks.go",
+        "register per class represents the class in the Lean theorem (proved from the source rows while movAstOK; measured "
+        "on 28 registers always)",
+        "the host CPU supports AVX-512 (mask and XMM rows are executed; no YMM/ZMM input selects an instruction, so there is "
+        "no YMM/ZMM row to execute); what it does is taken as the architecture's behaviour",
         "the constructor called by a matching case accepts the operands (checked by the correspondence: an instruction with "
-        "that opcode and exactly (address, register) operands is appended), not re-proved from Gen.Forms here",
+        "that opcode and exactly (address, register) operands is appended), not re-proved from Gen.Forms here; whether the "
+        "assembler can encode it (e.g. AH with a REX-only base register) is C05's property",
+        "error texts are not part of the property and are not compared",
     ]
     ctx.trusted += [
         "movSem (Model/Mov.lean `semTable`): hand-written instruction semantics; validated against the CPU on every run for "
-        "the rows measured (cpu-load / cpu-store lines)",
-        "go build / the Go compiler's conversions in the generated measurement program (.work/C08/cpu) as the oracle for Go's extension rule",
+        "the (opcode, register class) pairs Load/Store actually select (cpu-load / cpu-store lines; quick: one row per opcode "
+        "and direction at least); the entries for opcodes that appear only in shadowed or unreachable cases of zmov.go "
+        "(MOVOU, VMOVD, VMOVQ, VMOVSS, VMOVSD, VMOVDQU*) are never selected and never measured — they are needed only for "
+        "mov_opcodes_modelled (totality over the source rows)",
+        "go build / the Go compiler's conversions in the generated measurement program (.work/C08/cpu) as the oracle for Go's "
+        "extension rule; go vet -asmdecl as a second, heuristic oracle for access widths (its D-suffix guess is overridden "
+        "for KMOVD/VMOVD/MOVD by the CPU measurement)",
+        "the class table moveWidths (Model/Mov.lean) as the statement of which moves the x86 instruction set has",
+        "harness/gen_mov.go, harness/c08.go: tabulation of the real Load/Store into Gen.movTab (glue)",
     ]
